@@ -28,7 +28,10 @@ def run(ck):
     thorough = ck.tier == "thorough"
     wops = ("Put", "Bcast", "SetMode", "Evacuate")
     qops = ("Put", "Bcast", "SetMode", "EvacuateQ")
-    wit = [dict(scenario="ev-partial-removal", cat="c19s", ops=qops, modes=("rw", "ro"), inflight=1, required=False)]
+    wit = [dict(scenario="ev-partial-removal", cat="c19s", ops=qops, modes=("rw", "ro"), inflight=1, required=False),
+           # an object held by both evacuated shards has to reach the remaining one; a refusing fault handler aborts
+           dict(scenario="ev-two-sources", cat="c19t", ns=3, ops=("Bcast", "SetMode", "EvacuateQ"), modes=("rw", "ro"), inflight=1),
+           dict(scenario="ev-handler-error", cat="c19t", ops=("Put", "SetMode", "Evacuate"), modes=("rw", "ro"), inflight=1)]
     if thorough:
         wit += [dict(scenario="ev-lock-moved", cat="c19s", ops=wops, modes=("rw", "ro"), inflight=1),
                 dict(scenario="ev-handler", cat="c19s", ops=wops, modes=("rw", "ro"), inflight=1),
